@@ -111,6 +111,11 @@ let dispatch (cmd : string) (args : sx list) : sx =
   | "arun", [alias; ops] ->
       let op_ x = match lst x with [A "d"; k] -> ADecode (nat_ k) | [A "m"; k; v] -> AMutate (nat_ k, nat_ v) | _ -> failwith "aop" in
       let (_, outs) = arun (bool_ alias) ainit (list_ op_ ops) in w_list (w_opt w_nat) outs
+  | "coding_verdict", [st; e; nopts; tbl] ->
+      let obs_ x = match lst x with
+        | [i; o; a; m] -> { o_in = list_ z_ i; o_out = list_ z_ o; o_act = list_ bool_ a; o_mat = list_ (list_ nat_) m }
+        | _ -> failwith "obs" in
+      w_nat (coding_verdict (settings_ st) (existence_ e) (list_ nat_ nopts) (list_ obs_ tbl))
   | _ -> Dispatch2.dispatch cmd args
 
 let () =
